@@ -4,10 +4,15 @@
      Provider.members  map[string]*Node (key = last segment of the etcd key)   alist node
      handleWatchResponse      one watch response -> changes map                handle_batch
      updateNodesWithChanges   apply changes, drop dead members                 apply_changes
-     updateNodesWithSelf      initial listing keyed by Node.ID, then self      init_members
+     fetchNodes + updateNodesWithSelf  initial listing keyed by Node.ID, then self   init_members
      createClusterTopologyEvent  MemberStatus of every member                  publish
      _keepWatching            per response: empty -> skipped (no publication), else
                               handle, apply, publish                           publications
+     UpdateClusterState       p.self.State = s (p.self is the record in members)   set_self_state
+     startWatching loop       stream closed / error response -> new watch, same members   HRewatch
+     registerService / keepAliveForever   Put of the node's own record (at start, after a state
+                              change, after the keep-alive stream ended)       BStart regs / BReg
+     StartMember / Shutdown   provider life                                    OStart / OShutdown
    The model is the REPAIRED code (hooks/C08-fix-delete-cancels-pending-put.patch): a DELETE
    of a node that is not in members also removes a change pending for it in the same
    response.  [handle_ev_old] is the code before the repair (defect F9), kept for the
@@ -100,6 +105,33 @@ Definition fold_watch (self : node) (listing : list node) (bs : list (list ev)) 
 Definition fold_watch_old (self : node) (listing : list node) (bs : list (list ev)) : alist node :=
   fold_left (step_batch_old self) bs (init_members self listing).
 
+(* UpdateClusterState: p.self.State = state.  p.self is the very record stored under the node's
+   own key (updateNodesWithSelf), so the member map sees the change at the next publication.  An
+   entry whose id is the node's id can only be that record: a PUT carrying the node's own id is
+   never applied and the listing entry with that id is overwritten by the node's record. *)
+Definition with_state (n : node) (s : Z) : node := Nd (nid n) (nalive n) s (naddr n) (nsvcs n).
+
+Definition set_self_state (self : node) (s : Z) (mem : alist node) : alist node :=
+  match aget (nid self) mem with
+  | Some x => if Z.eqb (nid x) (nid self) then aset (nid self) (with_state x s) mem else mem
+  | None => mem
+  end.
+
+(* a history of the provider: watch responses interleaved with the node's own state changes and
+   with ends of the watch stream (closed or failed: the provider opens a new watch and goes on) *)
+Inductive hop := HBatch (b : list ev) | HSelf (s : Z) | HRewatch.
+
+Definition hstep (sm : node * alist node) (h : hop) : node * alist node :=
+  let '(self, mem) := sm in
+  match h with
+  | HBatch b => (self, step_batch self mem b)
+  | HSelf s => (with_state self s, set_self_state self s mem)
+  | HRewatch => (self, mem)
+  end.
+
+Definition fold_hist (self : node) (listing : list node) (h : list hop) : node * alist node :=
+  fold_left hstep h (self, init_members self listing).
+
 Definition member_of (n : node) : member := Mb (nid n) (nstate n) (naddr n) (nsvcs n).
 
 Definition publish (mem : alist node) : list member := map (fun kn => member_of (snd kn)) mem.
@@ -187,6 +219,21 @@ Definition get_work_names (ix : index) : list Z :=
   flat_map (fun tl => map iname (snd tl)) (ix_working ix).
 Definition get_service (ix : index) (n : Z) : option item := aget n (ix_services ix).
 Definition get_members (ix : index) : list member := map snd (ix_members ix).
+
+(* the package-level getters of node/app/utils.go, which go through the global node's Cluster *)
+Definition first_of (l : list item) : option item := match l with it :: _ => Some it | [] => None end.
+Definition pid_of (o : option item) : option Z := match o with Some it => ipid it | None => None end.
+Definition work_pid_of (o : option item) : option Z :=
+  match o with Some it => if is_work (istate it) then ipid it else None | None => None end.
+Definition len_opt (l : list item) : option Z := match l with [] => None | _ => Some (Z.of_nat (length l)) end.
+
+Definition get_first (ix : index) (t : Z) : option item := first_of (lst (ix_types ix) t).        (* GetFirstServiceItem *)
+Definition get_first_work (ix : index) (t : Z) : option item := first_of (lst (ix_working ix) t). (* GetFirstWorkServiceItem *)
+(* RandGetServiceItem / RandGetWorkServiceItem with the index rand.Intn returned *)
+Definition pick (ix : index) (t : Z) (i : nat) : option item := nth_error (lst (ix_types ix) t) i.
+Definition pick_work (ix : index) (t : Z) (i : nat) : option item := nth_error (lst (ix_working ix) t) i.
+Definition get_pid (ix : index) (n : Z) : option Z := pid_of (get_service ix n).                 (* GetServicePID *)
+Definition get_work_pid (ix : index) (n : Z) : option Z := work_pid_of (get_service ix n).       (* GetWorkServicePID *)
 
 (* ------------------------------------------------------------------ part C *)
 Inductive field := FMembers | FTypes | FWorking | FServices.
@@ -331,9 +378,28 @@ Definition view (pubs : list (list member)) (k : nat) : index :=
   end.
 
 (* ------------------------------------------------------------------ driver used by Corr.v *)
+(* an entry of the initial Get result: a decodable record / an undecodable value *)
+Inductive lent := LNode (n : node) | LJunk | LFail.   (* LFail: the Get itself fails *)
+
+Fixpoint listing_nodes (l : list lent) : option (list node) :=
+  match l with
+  | [] => Some []
+  | LNode n :: r => match listing_nodes r with Some ns => Some (n :: ns) | None => None end
+  | (LJunk | LFail) :: _ => None
+  end.
+
 Inductive op :=
-| OStart (self : node) (listing : list node)   (* VerifNewProvider: init + listing + publish *)
+| OStart (self : node) (listing : list lent)  (* StartMember: init, fetchNodes, updateNodesWithSelf, publish,
+                                                 startWatching, registerService, startKeepAlive *)
 | OBatch (b : list ev)                         (* one WatchResponse through _keepWatching *)
+| OSelfState (s : Z)                           (* App.UpdateNodeState -> UpdateClusterState; keep-alive tick *)
+| OLeaseLost (v : Z)                           (* the keep-alive stream ends (lease expired): the node registers
+                                                 again; v=1/2: the first Put / KeepAlive of the retry fails *)
+| ORewatch (v : Z)                             (* the watch stream ends: 0 closed, otherwise error response *)
+| OShutdown                                    (* Provider.Shutdown *)
+| OQuery                                       (* the package-level getters of node/app/utils.go *)
+| ONode (n : node)                             (* etcd.Node round trip *)
+| OSelfCluster (id addr : Z) (svcs : list (Z * Z))  (* cluster disabled: InitSelf, BuildSelfClusterTopology *)
 | OStress (a b : list member).                 (* measurement: updater alternating two views *)
 
 Definition probe_types : list Z := [0; 1; 2; 3; 4].
@@ -353,32 +419,113 @@ Definition query_all (ix : index) : answers :=
       (get_work_names ix)
       (get_members ix).
 
+(* per type: GetFirstServiceItem, GetFirstWorkServiceItem, GetFirstService, GetFirstWorkService,
+   RandGetServiceItem, RandGetWorkServiceItem, RandGetService, RandGetWorkService,
+   RandGetServiceName, RandGetWorkServiceName, len(GetServices.Items), len(GetWorkServices.Items) *)
+Inductive qtype :=
+| QT (t : Z) (fi fw : option item) (fp fwp : option Z) (ri rw : option item) (rp rwp : option Z)
+     (rn rwn : option Z) (ls lw : option Z).
+(* per name: GetServicePID, GetWorkServicePID, App.GetService *)
+Inductive qname := QN (n : Z) (pid wpid apid : option Z).
+Inductive ext := Ext (ts : list qtype) (ns : list qname).
+
+Definition name_of (o : option item) : option Z := match o with Some it => Some (iname it) | None => None end.
+
+(* the model answers every random pick with the first element (any element is admissible) *)
+Definition ext_of (ix : index) : ext :=
+  Ext (map (fun t =>
+              let f := get_first ix t in let w := get_first_work ix t in
+              QT t f w (pid_of f) (pid_of w) f w (pid_of f) (pid_of w) (name_of f) (name_of w)
+                 (len_opt (lst (ix_types ix) t)) (len_opt (lst (ix_working ix) t))) probe_types)
+      (map (fun n => QN n (get_pid ix n) (get_work_pid ix n) (get_pid ix n)) probe_names).
+
 Inductive obs :=
-| BNone                                   (* nothing published (no provider yet / empty response) *)
+| BNone                                   (* nothing to observe (no provider / empty response) *)
+| BFail                                   (* StartMember returned an error *)
+| BStart (regs : list (Z * node)) (wired : bool) (ms : list member) (q : answers)
+                                          (* records registered for the node, Get/Watch/KeepAlive
+                                             issued as expected, first publication + queries *)
 | BPub (ms : list member) (q : answers)   (* published list, and the battery of queries after it *)
+| BReg (k : Z) (n : node)                 (* the node registered record n under key k *)
+| BWatch (n : Z) (healthy : bool)         (* watches opened so far, GetHealthStatus() == nil *)
+| BDown (k : Z) (cancelled : bool)        (* key deregistered, watch context cancelled *)
+| BQuery (e : ext)
+| BNode (n : node) (ok : bool)
 | BStress (ok : bool).
 
-(* NewNode: the node's own record is alive *)
+(* NewNode: the node's own record is alive; an address that is no host:port becomes the pseudo
+   address nonhost:-1 (token -1) when it is the literal "nonhost" and an error otherwise *)
 Definition mk_self (n : node) : node := Nd (nid n) true (nstate n) (naddr n) (nsvcs n).
 
-Definition pstate := option (node * alist node).
+Record prov := Pv { p_self : node; p_mem : alist node; p_watches : Z; p_err : bool }.
 
-Definition pub_obs (mem : alist node) : obs :=
-  let ms := publish mem in BPub ms (query_all (make_members ms)).
+(* provider (None: none running) and the directory = the list last handed to the Cluster *)
+Definition pstate := (option prov * list member)%type.
+
+Definition pub_of (mem : alist node) : list member * answers :=
+  let ms := publish mem in (ms, query_all (make_members ms)).
+
+(* makeFullNameServices: services without a configuration entry are dropped; the configured
+   type of a name is the one of its last entry *)
+Definition cfg_type (svcs : list (Z * Z)) (n : Z) : option Z :=
+  fold_left (fun acc nt => if Z.eqb (fst nt) n && negb (Z.eqb (snd nt) 0) then Some (snd nt) else acc) svcs None.
+
+Definition self_cluster_member (id addr : Z) (svcs : list (Z * Z)) : member :=
+  Mb id working_state (if Z.ltb addr 0 then -1 else addr)
+     (flat_map (fun nt => match cfg_type svcs (fst nt) with Some t => [Svc t (fst nt)] | None => [] end) svcs).
 
 Definition step_op (s : pstate) (o : op) : pstate * obs :=
+  let '(pv, dir) := s in
   match o with
   | OStart self listing =>
       let self' := mk_self self in
-      let mem := init_members self' listing in
-      (Some (self', mem), pub_obs mem)
-  | OBatch b =>
-      match s with
-      | None => (s, BNone)
-      | Some (self, mem) =>
-          if is_nil b then (s, BNone)
-          else let mem' := step_batch self mem b in (Some (self, mem'), pub_obs mem')
+      match (if Z.ltb (naddr self) (-1) then None else listing_nodes listing) with
+      | None => ((None, dir), BFail)
+      | Some nodes =>
+          let mem := init_members self' nodes in
+          let '(ms, q) := pub_of mem in
+          ((Some (Pv self' mem 1 false), ms),
+           BStart [(nid self', self'); (nid self', self')] true ms q)
       end
+  | OBatch b =>
+      match pv with
+      | None => (s, BNone)
+      | Some p =>
+          if is_nil b then (s, BNone)
+          else let mem' := step_batch (p_self p) (p_mem p) b in
+               let '(ms, q) := pub_of mem' in
+               ((Some (Pv (p_self p) mem' (p_watches p) (p_err p)), ms), BPub ms q)
+      end
+  | OSelfState st =>
+      match pv with
+      | None => (s, BNone)
+      | Some p =>
+          let self' := with_state (p_self p) st in
+          ((Some (Pv self' (set_self_state (p_self p) st (p_mem p)) (p_watches p) (p_err p)), dir),
+           BReg (nid self') self')
+      end
+  | OLeaseLost _ =>
+      match pv with
+      | None => (s, BNone)
+      | Some p => (s, BReg (nid (p_self p)) (p_self p))
+      end
+  | ORewatch v =>
+      match pv with
+      | None => (s, BNone)
+      | Some p =>
+          let e := p_err p || negb (Z.eqb v 0) in
+          ((Some (Pv (p_self p) (p_mem p) (p_watches p + 1) e), dir), BWatch (p_watches p + 1) (negb e))
+      end
+  | OShutdown =>
+      match pv with
+      | None => (s, BNone)
+      | Some p => ((None, dir), BDown (nid (p_self p)) true)
+      end
+  | OQuery => (s, BQuery (ext_of (make_members dir)))
+  | ONode n => (s, BNode n true)
+  | OSelfCluster id addr svcs =>
+      let ms := [self_cluster_member id addr svcs] in
+      ((pv, ms), BPub ms (query_all (make_members ms)))
   | OStress _ _ => (s, BStress true)
   end.
 
@@ -388,4 +535,5 @@ Fixpoint run_from (s : pstate) (ops : list op) : list obs :=
   | o :: r => let '(s1, b) := step_op s o in b :: run_from s1 r
   end.
 
-Definition run (ops : list op) : list obs := run_from None ops.
+Definition init_state : pstate := (None, []).
+Definition run (ops : list op) : list obs := run_from init_state ops.
